@@ -2,7 +2,7 @@ import PPLV.Wrap.Model
 import PPLV.Lattice.ModelOps
 
 /-!
-# C17 — `Grid::wrap_assign` (src/Grid_public.cc:2968-3168), code-shaped model (no Mathlib)
+# C17 — `Grid::wrap_assign` (src/Grid_public.cc:2968-3182), code-shaped model (no Mathlib)
 
 The receiver `*this` and the copy `gr` are grids in K2's generator form (`PPLV.Lattice.GridGens`:
 `empty`, or a point, parameters and lines with rational coordinates = the minimized `gen_sys` of the
@@ -25,6 +25,13 @@ empty receiver, the range computation for both representations, the loop over `v
 `OVERFLOW_WRAPS` / `OVERFLOW_IMPOSSIBLE` (frequencies and values are read from the COPY `gr` made before
 the loop, the updates go to `*this`), and the loop for `OVERFLOW_UNDEFINED`.  `complexity_threshold` and
 `wrap_individually` are unnamed parameters of the function (ignored).
+
+Two defects found with this model (KF-C17-12, KF-C17-13) are repaired in /repo (3a4d83e: the test
+`o == OVERFLOW_WRAPS && (f_n != wrap_frequency || v_d != 1)`; 4614ba1: `if (is_empty()) return;` before the two
+`add_grid_generator(parameter(wrap_frequency * x))`).  The model carries a switch for each repair (`Repairs`):
+`gridWrapAssign` = `gridWrapAssignV repaired` is the code as it is NOW; `gridWrapAssignBeforeFix` =
+`gridWrapAssignV beforeFix` is kept as a named historical witness (`C17.grid_wrap_sound_wraps_before_fix_fails`, …).
+The driver measures on every run which variant the library implements, so a regression is recognised.
 -/
 namespace PPLV.Wrap.GW
 open PPLV.Lattice PPLV.Wrap
@@ -39,6 +46,21 @@ inductive Outcome where
       had become empty inside the loop; it is left as `left` -/
   | invalidGenerator (left : GridGens)
 deriving Repr, Inhabited, DecidableEq
+
+/-- which of the two repairs are applied -/
+structure Repairs where
+  /-- KF-C17-12 (3a4d83e): `if (o == OVERFLOW_WRAPS && (f_n != wrap_frequency || v_d != 1))` at :3099;
+      `false`: the test before the repair, `o == OVERFLOW_WRAPS && f_n != wrap_frequency` -/
+  kf12 : Bool
+  /-- KF-C17-13 (4614ba1): `if (is_empty()) return;` before each `add_grid_generator(parameter(wrap_frequency * x))`
+      (:3044, :3108); `false`: no such test -/
+  kf13 : Bool
+deriving Repr, Inhabited, DecidableEq
+
+/-- the function as it is written now (both repairs are in /repo) -/
+def repaired : Repairs := ⟨true, true⟩
+/-- the function before the two repairs (historical) -/
+def beforeFix : Repairs := ⟨false, false⟩
 
 /-! ## the member functions used -/
 
@@ -71,6 +93,14 @@ def frequencyNoCheck (g : Gens) (e : Vec) : Option (Int × Int × Int × Int) :=
 def addGridGeneratorParam (this : GridGens) (x : Nat) (c : Int) : Except GridGens GridGens :=
   if this.isEmpty then .error this else .ok (addParam this (vsmul (c : Rat) (unit x)))
 
+/-- `if (is_empty()) return;` (only with `kf13`: :3044-3046, :3108-3110) followed by `add_grid_generator(parameter(c * x))`:
+    `Sum.inl` = the loop goes on; on an empty receiver the function returns (`kf13`) or the exception of
+    `add_grid_generator` leaves it (no such test: before the repair, and at the two sites of the `OVERFLOW_UNDEFINED` loop) -/
+def addParamOrLeave (fx : Repairs) (this : GridGens) (x : Nat) (c : Int) : GridGens ⊕ Outcome :=
+  match addGridGeneratorParam this x c with
+  | .ok t => .inl t
+  | .error l => .inr (if fx.kf13 then .ok l else .invalidGenerator l)
+
 /-- `add_congruence((x %= 0) / 1)` -/
 def addCongruenceInt (this : GridGens) (x : Nat) : GridGens := intersectCon this { a := unit x, b := 0, f := 1 }
 
@@ -92,84 +122,74 @@ def rangeOf (r : Repn) (w : Nat) : Int × Int :=
   | .unsigned => (0, 2 ^ w - 1)                      -- min = 0; max = 2^w; --max
   | .signed => (-(2 ^ (w - 1)), 2 ^ (w - 1) - 1)     -- max = 2^(w-1); min = -max; --max
 
-/-! ## the loop for `OVERFLOW_IMPOSSIBLE` / `OVERFLOW_WRAPS` (Grid_public.cc:3029-3123) -/
+/-! ## the loop for `OVERFLOW_IMPOSSIBLE` / `OVERFLOW_WRAPS` (Grid_public.cc:3029-3137) -/
 
-/-- :3066-3074 the out-of-range constant `v_n` wrapped: `v_n %= wrap_frequency` (truncating), then one
+/-- :3071-3079 the out-of-range constant `v_n` wrapped: `v_n %= wrap_frequency` (truncating), then one
     correction step into the range -/
 def wrapConstant (w : Nat) (minV maxV v_n : Int) : Int :=
   let v := Int.tmod v_n (wrapFrequency w)
   if v < minV then v + wrapFrequency w else if v > maxV then v - wrapFrequency w else v
 
-/-- :3102-3107 the least value congruent to `v_n` modulo `f_n` that is not below `min_value` -/
+/-- :3116-3121 the least value congruent to `v_n` modulo `f_n` that is not below `min_value` -/
 def leastNotBelow (minV f_n v_n : Int) : Int :=
   let v := Int.tmod (v_n - minV) f_n
   (if v < 0 then v + f_n else v) + minV
 
 /-- the body of the loop for one variable `x`: `Sum.inl` = `continue` with the new receiver, `Sum.inr` = `return`
     (or throw) with that outcome -/
-def stepWI (w : Nat) (o : Ovf) (minV maxV : Int) (gr : Gens) (x : Nat) (this : GridGens) : GridGens ⊕ Outcome :=
+def stepWI (fx : Repairs) (w : Nat) (o : Ovf) (minV maxV : Int) (gr : Gens) (x : Nat) (this : GridGens) : GridGens ⊕ Outcome :=
   let wf := wrapFrequency w
   match frequencyNoCheck gr (unit x) with
   | none =>
-    -- :3038-3045 `x` takes a continuum of values
-    if o = .wraps then
-      match addGridGeneratorParam this x wf with
-      | .ok t => .inl t
-      | .error l => .inr (.invalidGenerator l)
+    -- :3038-3050 `x` takes a continuum of values
+    if o = .wraps then addParamOrLeave fx this x wf                         -- :3041-3048
     else .inl this
   | some (f_n, f_d, v_n, v_d) =>
     if f_n = 0 then
-      -- :3048 `x` is a constant in `gr`
-      if v_d ≠ 1 then .inr (.ok .empty)                                    -- :3049-3054
+      -- :3051 `x` is a constant in `gr`
+      if v_d ≠ 1 then .inr (.ok .empty)                                    -- :3054-3059
       else if v_n > maxV ∨ v_n < minV then
-        if o = .impossible then .inr (.ok .empty)                          -- :3059-3063
+        if o = .impossible then .inr (.ok .empty)                          -- :3064-3068
         else
-          let v := wrapConstant w minV maxV v_n                            -- :3066-3074
-          .inl (addConstraintEq (unconstrain this x) x v)                  -- :3075-3076
-      else .inl this                                                       -- :3078
+          let v := wrapConstant w minV maxV v_n                            -- :3071-3079
+          .inl (addConstraintEq (unconstrain this x) x v)                  -- :3080-3081
+      else .inl this                                                       -- :3083
     else
-      -- :3081 `x` is not a constant in `gr`
-      if Int.tmod f_d v_d ≠ 0 then .inr (.ok .empty)                       -- :3084-3088
+      -- :3086 `x` is not a constant in `gr`
+      if Int.tmod f_d v_d ≠ 0 then .inr (.ok .empty)                       -- :3089-3093
       else
-        let this1 := if f_d ≠ 1 then addCongruenceInt this x else this     -- :3089-3093
-        if o = .wraps ∧ f_n ≠ wf then                                      -- :3094-3098
-          match addGridGeneratorParam this1 x wf with
-          | .ok t => .inl t
-          | .error l => .inr (.invalidGenerator l)
-        else if v_d = 1 then                                               -- :3099
-          let v := leastNotBelow minV f_n v_n                              -- :3102-3107
-          if f_n = wf ∨ v + f_n > maxV then                                -- :3108
-            .inl (addConstraintEq (unconstrain this1 x) x v)               -- :3111-3112
+        let this1 := if f_d ≠ 1 then addCongruenceInt this x else this     -- :3094-3098
+        if o = .wraps ∧ (f_n ≠ wf ∨ (fx.kf12 = true ∧ v_d ≠ 1)) then         -- :3099 (`kf12 = false`: the test before 3a4d83e)
+          addParamOrLeave fx this1 x wf                                    -- :3100-3111
+        else if v_d = 1 then                                               -- :3113
+          let v := leastNotBelow minV f_n v_n                              -- :3116-3121
+          if f_n = wf ∨ v + f_n > maxV then                                -- :3122
+            .inl (addConstraintEq (unconstrain this1 x) x v)               -- :3125-3126
           else .inl this1
-        else .inl this1                                                    -- :3118-3120
+        else .inl this1                                                    -- :3132-3134 (overflow impossible; before 3a4d83e also wraps with `f_n = 2^w`)
 
-def loopWI (w : Nat) (o : Ovf) (minV maxV : Int) (gr : Gens) : List Nat → GridGens → Outcome
-  | [], this => .ok this                                                   -- :3122 `return`
+def loopWI (fx : Repairs) (w : Nat) (o : Ovf) (minV maxV : Int) (gr : Gens) : List Nat → GridGens → Outcome
+  | [], this => .ok this                                                   -- :3136 `return`
   | x :: xs, this =>
-    match stepWI w o minV maxV gr x this with
-    | .inl t => loopWI w o minV maxV gr xs t
+    match stepWI fx w o minV maxV gr x this with
+    | .inl t => loopWI fx w o minV maxV gr xs t
     | .inr out => out
 
-/-! ## the loop for `OVERFLOW_UNDEFINED` (Grid_public.cc:3125-3167) -/
+/-! ## the loop for `OVERFLOW_UNDEFINED` (Grid_public.cc:3139-3181) -/
 
 /-- `point = gr.gen_sys[0]`, `div = point.divisor()`, `max_value *= div`, `min_value *= div`: the
     comparisons `coeff_x > max_value`, `coeff_x % div != 0` are those of the rational coordinate
     `coeff_x / div` with the unscaled bounds -/
 def stepU (minV maxV : Int) (gr : Gens) (x : Nat) (this : GridGens) : GridGens ⊕ Outcome :=
   let px : Rat := gr.pt.getD x 0
-  if !boundsExpr (.gens gr) (unit x) then                                  -- :3135
-    if px.den ≠ 1 then                                                     -- :3139
-      .inl (addCongruenceInt (unconstrain this x) x)                       -- :3142-3143
-    else
-      match addGridGeneratorParam this x 1 with                            -- :3149
-      | .ok t => .inl t
-      | .error l => .inr (.invalidGenerator l)
+  if !boundsExpr (.gens gr) (unit x) then                                  -- :3149
+    if px.den ≠ 1 then                                                     -- :3153
+      .inl (addCongruenceInt (unconstrain this x) x)                       -- :3156-3157
+    else addParamOrLeave beforeFix this x 1                                -- :3163 (no `is_empty()` test at this site)
   else
-    if px.den ≠ 1 then .inr (.ok .empty)                                   -- :3156-3159
-    else if px > (maxV : Rat) ∨ px < (minV : Rat) then                     -- :3163
-      match addGridGeneratorParam this x 1 with                            -- :3164
-      | .ok t => .inl t
-      | .error l => .inr (.invalidGenerator l)
+    if px.den ≠ 1 then .inr (.ok .empty)                                   -- :3170-3173
+    else if px > (maxV : Rat) ∨ px < (minV : Rat) then                     -- :3177
+      addParamOrLeave beforeFix this x 1                                   -- :3178 (no `is_empty()` test at this site)
     else .inl this
 
 def loopU (minV maxV : Int) (gr : Gens) : List Nat → GridGens → Outcome
@@ -192,7 +212,7 @@ def guardTooBig (n : Nat) (guard : Option (List PPLV.Lin.Con)) : Bool :=
 
 /-- `Grid::wrap_assign(vars, w, r, o, cs_p, complexity_threshold, wrap_individually)` on a grid of space
     dimension `n` whose minimized generators are `G` (`.empty`: marked empty, or `minimize()` finds it empty) -/
-def gridWrapAssign (n : Nat) (cfg : WrapCfg) (G : GridGens) : Outcome :=
+def gridWrapAssignV (fx : Repairs) (n : Nat) (cfg : WrapCfg) (G : GridGens) : Outcome :=
   -- :2978-2983 dimension-compatibility check of `*cs_p`, its only use
   if guardTooBig n cfg.guard then .dimensionIncompatible
   -- :2986 wrapping no variable is a no-op
@@ -205,9 +225,14 @@ def gridWrapAssign (n : Nat) (cfg : WrapCfg) (G : GridGens) : Outcome :=
   | .gens gr =>
     let mm := rangeOf cfg.r cfg.w
     if cfg.o = .impossible ∨ cfg.o = .wraps then
-      loopWI cfg.w cfg.o mm.1 mm.2 gr (normVars cfg.vars) (.gens gr)
+      loopWI fx cfg.w cfg.o mm.1 mm.2 gr (normVars cfg.vars) (.gens gr)
     else
       loopU mm.1 mm.2 gr (normVars cfg.vars) (.gens gr)
+
+/-- `Grid::wrap_assign` as it is written now (with the repairs 3a4d83e and 4614ba1) -/
+def gridWrapAssign (n : Nat) (cfg : WrapCfg) (G : GridGens) : Outcome := gridWrapAssignV repaired n cfg G
+/-- `Grid::wrap_assign` before the repairs of KF-C17-12 and KF-C17-13 (historical witness) -/
+def gridWrapAssignBeforeFix (n : Nat) (cfg : WrapCfg) (G : GridGens) : Outcome := gridWrapAssignV beforeFix n cfg G
 
 /-- the receiver after the call (a thrown `invalid_argument` leaves it as it was when the exception left
     `add_grid_generator`; a dimension error leaves it unchanged) -/
@@ -216,9 +241,9 @@ def Outcome.receiver (G : GridGens) : Outcome → GridGens
   | .dimensionIncompatible => G
   | .invalidGenerator l => l
 
-/-! ## the branch that is not sound (KF-C17-12) -/
+/-! ## the branch that was not sound before 3a4d83e (KF-C17-12) -/
 
-/-- `x` goes through the branch of :3118-3120: overflow wraps, `x` is not constant, its frequency numerator is
+/-- `x` went through the unchanged-grid branch (now :3132-3134, then also taken when overflow wraps): overflow wraps, `x` is not constant, its frequency numerator is
     exactly `2^w` and the representative `v_n/v_d` returned by `frequency_no_check` is not an integer: the grid
     (with the integrality congruence) is left as it is although `x` alone has to move by multiples of `2^w`. -/
 def flawedAt (w : Nat) (o : Ovf) (gr : Gens) (x : Nat) : Bool :=
